@@ -551,6 +551,27 @@ def run(R, P="C09"):
                     attr = "asynq"
                 elif isinstance(x, ast.Call) and q.call_name(x) == "getattr" and len(x.args) == 2 and q.src(x.args[0]) == p0 and isinstance(x.args[1], ast.Constant) and x.args[1].value == "async":
                     attr = "async"
+                if isinstance(x, ast.Attribute) and q.src(x.value) == p0 and x.attr == "asyncio":
+                    # .asyncio exists on what the decorators produce: objects with .asynq, and pure async functions - not on an object
+                    # that only has the legacy `async` attribute (is_async_fn() is true for those as well)
+                    def has_asyncio(nd, p0=p0):
+                        if nd.kind != "test":
+                            return None
+                        k_, s_, pos_ = q.atom_test(nd.ast)
+                        e_ = nd.ast
+                        while isinstance(e_, ast.UnaryOp) and isinstance(e_.op, ast.Not):
+                            e_ = e_.operand
+                        if isinstance(e_, ast.Call) and q.call_name(e_) == "hasattr" and len(e_.args) == 2 and isinstance(e_.args[1], ast.Constant) \
+                                and e_.args[1].value in ("asynq", "asyncio") and q.src(e_.args[0]) == p0:
+                            return "T" if pos_ else "F"
+                        if isinstance(e_, ast.Call) and q.call_name(e_) == "is_pure_async_fn" and e_.args and q.src(e_.args[0]) == p0:
+                            return "T" if pos_ else "F"
+                        return None
+                    p = kit.path_avoiding_guard(fcfg, [n], has_asyncio, N)
+                    R.check(p is None, P + ".CLASSIFY", "%s:reads:asyncio" % fq, R.site(f, n.ast),
+                            "%s.asyncio is read only for objects known to have it (.asynq present, or a pure async function)" % p0,
+                            "%s.asyncio is read on a path where only `some async marker` was established: an object that offers just the legacy `async` attribute "
+                            "has no .asyncio - AttributeError at the yield in asyncio mode, while the synchronous call works" % p0, fcfg.fmt_path(p) if p else None)
                 if attr is None:
                     continue
                 p = kit.path_avoiding_guard(fcfg, [n], has_marker(attr), N)
